@@ -399,6 +399,7 @@ def degenerate(rng, kind="degenerate-values"):
 
 
 API_VARIANTS = ["pos", "kw", "nostoich", "nondeg", "listfn", "staged", "lazy", "twice", "und", "multi", "multidi"]
+ENCODINGS = ["pos", "multidi-stoich", "multidi", "multidi-mixed", "und", "multi", "multi-mixed"]
 
 
 def api_surface(rng, kind="api"):
@@ -435,4 +436,28 @@ def large(rng, sizes=(40, 100), kind="large"):
         sides += [([[sp[2 * i], 1]], [[sp[2 * i + 1], 2]]), ([[sp[2 * i + 1], 2]], [[sp[2 * i], 1]])]
     out.append(dict(kind=kind, name="large/11-reversible-classes", rxns=[["r_%d" % (k + 1), "r", l, r] for k, (l, r) in enumerate(sides)],
                     iso=[], view="hyper", delta=0, wr=True))
+    return out
+
+
+def encodings(rng, count, kind="encodings"):
+    """Every accepted INPUT ENCODING of one network must give one analysis: CRNHyperGraph, DiGraph with stoich, MultiDiGraph with
+    stoich, MultiDiGraph with the multiplicities as parallel unit arcs, mixed (c = (c - 1) + 1 on two parallel arcs), undirected
+    Graph / MultiGraph, undirected MultiGraph with mixed parallel incidences listed from either end.  Networks with coefficients up
+    to 4 (random) and the textbook networks that have a coefficient >= 2."""
+    out = []
+    nets = [t for t in G.textbook() if any(c >= 2 for _, _, l, r in t["rxns"] for _, c in l + r)]
+    P = G._parse
+    demo = G.net_from_strings(["2 A >> B", "B >> 2 A", "2 A + C >> D", "D >> B + C"], kind)          # the demo of seeded change C19-w4-1
+    demo["name"] = "textbook/w4-1-demo"
+    nets = [demo] + nets[:6]
+    for k in range(count):
+        nets.append(G.random_net(rng, max_s=rng.choice([3, 4, 5]), max_r=rng.choice([2, 3, 4]), maxc=rng.choice([2, 3, 4])))
+    for b in nets:
+        for v in ENCODINGS:
+            c = dict(b)
+            c.pop("delta", None)
+            c.pop("wr", None)
+            c.update(kind=kind, api=v, view="hyper" if v == "pos" and rng.random() < 0.5 else "bip_int",
+                     name="enc/%s/%s" % (v, b.get("name", "random").split("/", 1)[-1]))
+            out.append(c)
     return out
